@@ -20,7 +20,9 @@ def get_circle_point_list(center, normal, radius, n=10):
         )
     import math, copy
 
-    if normal.angle(x_unit_vector()) < SMALL_ANGLE:
+    angle_to_x = normal.angle(x_unit_vector())
+    # the normal may point along +x or along -x
+    if angle_to_x < SMALL_ANGLE or angle_to_x > math.pi - SMALL_ANGLE:
         base_vector = y_unit_vector()
         if normal.angle(y_unit_vector()) < SMALL_ANGLE:
             raise ValueError("Bug detected! please contact the author")
